@@ -19,7 +19,7 @@ MANIFEST = dict(
 RULE = (
     "case = one hand-built graph (1-10 nodes; 0-4 inputs per node in permuted positions, static args interleaved incl. strings, kwargs, same dataset via two "
     "inputs, the same input name twice in args (own class); 1..13 outputs, str(i) names or hand-named unsorted) or one fluent program (FluentShadow generator "
-    "incl. generator maps with 2..13 yields), or one count-mismatch probe (declared n, yields n+-k); non-trivial = >=2 nodes and >=1 edge or a multi-output node; "
+    "incl. generator maps with 1..13 yields and single-output generator nodes), or one count-mismatch probe (declared n>=1, yields n+-k); non-trivial = >=2 nodes and >=1 edge or a multi-output node; "
     "distinct = digest(kind, arities, output counts, arg layout)"
 )
 ASSUMPTIONS = ["payload convention: (func, args, kwargs); an arg equal to one of the node's input names is replaced by that input's value"]
@@ -80,11 +80,13 @@ def gen_hand_graph(rng):
         else:
             outs = rng.sample(["b", "a", "d", "c", "z", "m"], rng.randint(2, 4))
         nout = 1 if outs is None else len(outs)
-        func = functools.partial(sym_task, name) if nout == 1 else functools.partial(sym_gen, name, nout)
+        # a node with one output may be a generator all the same (fluent `yields` with one coordinate): it yields that one value
+        single_gen = nout == 1 and rng.random() < 0.2
+        func = functools.partial(sym_task, name) if nout == 1 and not single_gen else functools.partial(sym_gen, name, nout)
         inputs = {iname: nodes[p].get_output(o) for iname, (p, o) in zip(inames, srcs)}
         nodes[name] = Node(name, outs, (func, list(args), dict(kwargs)), **inputs)
         spec[name] = {"outputs": ["0"] if outs is None else list(outs), "args": list(args), "kwargs": dict(kwargs),
-                      "inputs": dict(zip(inames, srcs)), "dup": dup}
+                      "inputs": dict(zip(inames, srcs)), "dup": dup, "single_gen": single_gen}
         order.append(name)
     consumed = {p for s in spec.values() for (p, _o) in s["inputs"].values()}
     return Graph([nodes[nm] for nm in order if nm not in consumed]), spec, order
@@ -254,14 +256,15 @@ def case_mismatch(col, rng, index):
     """Declared n outputs, generator yields n +- k: the task must fail, for every k."""
     import cascade.low.into as into
     from earthkit.workflows.graph import Graph, Node
-    n = rng.choice([2, 3, 4, 5, 12])
+    n = rng.choice([1, 2, 3, 4, 5, 12])
     k = rng.choice([1, 2, 3])
     sign = rng.choice([-1, 1])
     ny = n + sign * k
     if ny < 0:
         ny = 0
-    outs = [str(i) for i in range(n)]
+    outs = [str(i) for i in range(n)] if n > 1 else None       # one declared output: the default output, the callable is a generator all the same
     node = Node("gen", outs, (functools.partial(sym_gen, "gen", ny), [], {}))
+    outs = outs or ["0"]
     consumer = Node("use", None, (functools.partial(sym_task, "use"), ["input0"], {}), input0=node.get_output(outs[-1]))
     g = Graph([consumer])
     wit = {"kind": "mismatch", "declared": n, "yields": ny}
